@@ -1,5 +1,5 @@
 (* C17 correspondence: race-detector scenarios run by harness/c17 against the real services. *)
-From Verif Require Export Lib.Base Lib.Lockset Lib.LocksetX Gen.C17_Extracted.
+From Verif Require Export Lib.Base Lib.Lockset Lib.LocksetX Gen.C17_Extracted Model.C17_Snapshot.
 From Coq Require Export String.
 
 Record case := {
@@ -8,9 +8,37 @@ Record case := {
   c_scenario : string;
   c_race : bool;            (* the Go race detector reported a data race (or the runtime aborted on concurrent map access) *)
   c_hang : bool;            (* the scenario did not finish: goroutines blocked for ever (a leaked / re-acquired lock) *)
-  c_crash : bool            (* a panic raised in Vouch's own code aborted the scenario: an overlap showed an operation
+  c_crash : bool;           (* a panic raised in Vouch's own code aborted the scenario: an overlap showed an operation
                                a state that no sequential order of the operations produces *)
+  (* account-churn scenarios only (empty otherwise): refreshes alternate between the listings while lookups run *)
+  c_listings : list (list N);           (* the keys (= validator indices) the wallets list, per phase *)
+  c_active : list N;                    (* validators that the validators-manager mock reports as validating *)
+  c_requested : list N;                 (* indices asked for by the ByIndex lookups *)
+  c_answers : list (list (N * bool));       (* distinct answers of ValidatingAccountsForEpoch: (validator, account present), sorted *)
+  c_answers_idx : list (list (N * bool))    (* distinct answers of ValidatingAccountsForEpochByIndex *)
 }.
+
+(* ---- snapshot model (Model/C17_Snapshot.v) on the churn data ---- *)
+Definition memN (x : N) (l : list N) : bool := existsb (N.eqb x) l.
+
+(* the sequential lookup of the model on the store of one refresh, projected as the harness projects the
+   implementation's answer: validating validators only, (validator, account present), sorted by validator *)
+Definition model_answer (active : list N) (only : option (list N)) (listing : list N) : list (N * bool) :=
+  let st := install (map (fun k => (k, k)) listing) in
+  let r := filter (fun p => memN (fst p) active && match only with Some req => memN (fst p) req | None => true end) (lookup_at st) in
+  sort_by fst (map (fun p => (fst p, match snd p with Some _ => true | None => false end)) r).
+
+Definition answer_eqb (a b : list (N * bool)) : bool :=
+  list_eqb (fun p q => (fst p =? fst q) && Bool.eqb (snd p) (snd q)) a b.
+
+(* every observed answer is the model's answer on the store of ONE refresh (C17_snapshot_lookup_sequential) *)
+Definition answers_agree (c : case) : bool :=
+  forallb (fun a => existsb (fun l => answer_eqb a (model_answer (c_active c) None l)) (c_listings c)) (c_answers c) &&
+  forallb (fun a => existsb (fun l => answer_eqb a (model_answer (c_active c) (Some (c_requested c)) l)) (c_listings c)) (c_answers_idx c).
+
+(* on the observed answers alone: no answer names a validator without its account *)
+Definition answers_whole (c : case) : bool :=
+  forallb (forallb snd) (c_answers c) && forallb (forallb snd) (c_answers_idx c).
 
 Definition service_ok (name : string) : bool :=
   match find (fun '(n, _, _, _, _) => String.eqb n name) services with
@@ -21,7 +49,7 @@ Definition service_ok (name : string) : bool :=
 (* the property on the observed run alone: no unsynchronised conflicting access was observed,
    every operation finished (no lock was left held), and no operation panicked on what it saw.
    (The skeleton model has no values: it predicts races and hangs, not crashes; `agree` is silent on c_crash.) *)
-Definition P_b (c : case) : bool := negb (c_race c) && negb (c_hang c) && negb (c_crash c).
+Definition P_b (c : case) : bool := negb (c_race c) && negb (c_hang c) && negb (c_crash c) && answers_whole c.
 
 Definition service_known (name : string) : bool :=
   existsb (fun '(n, _, _, _, _) => String.eqb n name) services.
@@ -39,7 +67,7 @@ Definition service_order_ok (name : string) : bool :=
 Definition agree (c : case) : bool :=
   implb (service_ok (c_service c)) (negb (c_race c)) &&
   implb (service_ok (c_service c) && service_order_ok (c_service c)) (negb (c_hang c)) &&
-  service_known (c_service c).
+  service_known (c_service c) && answers_agree c.
 
 Definition mismatches (cs : list case) : list N := failing_ids c_id agree cs.
 Definition violations (cs : list case) : list N := failing_ids c_id P_b cs.
